@@ -449,14 +449,14 @@ where
     T: FloatT,
 {
     let two: T = (2.).as_T();
-    let three: T = (3.).as_T();
-
     // init point x0: since our dual barrier has an additional
     // shift -2α*log(α) - 2(1-α)*log(1-α) > 0 in f(x),
     // the previous selection is still feasible, i.e. f(x0) > 0
 
-    let x0 =
-        -s3.recip() + (s3 * two + T::sqrt((phi * phi) / (s3 * s3) + phi * three)) / (phi - s3 * s3);
+    // ψ = 1/(α² + (1-α)²) ∈ [1,2]: x0 is left of the root for every α (ψ = 2, the root for α = 1/2)
+    let ψ = (α * α + (T::one() - α) * (T::one() - α)).recip();
+    let x0 = -s3.recip()
+        + (s3 * ψ + T::sqrt((phi * phi) / (s3 * s3) + phi * (ψ * ψ - T::one()))) / (phi - s3 * s3);
 
     // additional shift due to the choice of dual barrier
     let t0 = -two * α * (α.logsafe()) - two * (T::one() - α) * (T::one() - α).logsafe();
